@@ -107,3 +107,73 @@ def language(sub, ignorecase=False, limit=5000, finite_prefix=False):
 
 def n_groups(pattern, flags=0):
   return re.compile(pattern, flags).groups
+
+
+ANYCHAR = '\x00any'
+
+
+def first(seq, ignorecase=False):
+  """(set of characters a match of the item sequence `seq` can begin with, can it match the empty string).  A class that is not a
+  plain set of literals / ranges (a category, a negation) contributes ANYCHAR."""
+  out = set()
+  for op, av in seq:
+    f, nullable = set(), False
+    if op is C.LITERAL:
+      f = {chr(av)}
+    elif op is C.NOT_LITERAL or op is C.ANY:
+      f = {ANYCHAR}
+    elif op is C.IN:
+      cs = charset(av, ignorecase)
+      f = cs if cs is not None else {ANYCHAR}
+    elif op is C.BRANCH:
+      for alt in av[1]:
+        fa, na = first(alt, ignorecase)
+        f |= fa
+        nullable = nullable or na
+    elif op is C.SUBPATTERN:
+      f, nullable = first(av[3], ignorecase)
+    elif op in (C.MAX_REPEAT, C.MIN_REPEAT):
+      f, n0 = first(av[2], ignorecase)
+      nullable = n0 or av[0] == 0
+    elif op in (C.AT, C.ASSERT, C.ASSERT_NOT):
+      nullable = True
+    elif op is C.GROUPREF:
+      f, nullable = {ANYCHAR}, True
+    else:
+      f, nullable = {ANYCHAR}, True
+    out |= f
+    if not nullable:
+      return out, False
+  return out, True
+
+
+def shadowed_alternatives(group_seq, follow_seq):
+  """Ordered alternation: an alternative that can match the empty string always succeeds, so the alternatives after it are tried only
+  when the *rest* of the pattern fails.  [(characters, branch)] for every alternation in `group_seq` where a later alternative
+  begins with characters that the continuation (rest of the group, then `follow_seq`) can begin with too and no negative lookahead
+  right after the alternation rules them out: such a character is left to the continuation instead of being taken here."""
+  out = []
+  for j, (op, av) in enumerate(group_seq):
+    if op is not C.BRANCH:
+      continue
+    alts = av[1]
+    for k, alt in enumerate(alts[:-1]):
+      if not first(alt)[1]:
+        continue
+      later = set()
+      for a2 in alts[k + 1:]:
+        later |= first(a2)[0]
+      rest = list(group_seq[j + 1:]) + list(follow_seq)
+      barred = set()
+      for op2, av2 in rest:
+        if op2 is C.ASSERT_NOT and av2[0] == 1 and len(av2[1]) == 1 and av2[1][0][0] in (C.IN, C.LITERAL):
+          it = av2[1][0]
+          barred |= (charset(it[1]) or set()) if it[0] is C.IN else {chr(it[1])}
+          continue
+        break
+      cont, _n = first(rest)
+      clash = set(c for c in later if (c in cont or ANYCHAR in cont) and c not in barred)
+      if clash:
+        out.append((clash, av))
+      break
+  return out
